@@ -16,7 +16,7 @@ RULE = (
     "transcript with random coordinates (non-exon features may extend beyond the exons), optional explicit gene / transcript "
     "lines, lines in a generated permutation, any GTF dialect, all four disable_infer_* combinations, and (labelled share) "
     "custom transcript/gene keys and subfeature type with the matching dict id_spec; a labelled share of cases delivers the last "
-    "gene, or one transcript's exons, later through update(), optionally preceded by an update with a constructor-built "
+    "gene, or one transcript's exons (the only exon-bearing transcript of its gene, or a further transcript of a gene that is derived already, its exons inside the gene's extent), later through update(), optionally preceded by an update with a constructor-built "
     "(default-dialect) Feature and a reopen of the file; genes may have exons without a transcript key, and non-exon lines may be "
     "unstranded. Non-trivial = a gene with >= 2 "
     "transcripts, or shuffled lines, or an explicit line, or an exon-less transcript. Distinct by hash."
@@ -130,7 +130,7 @@ class GtfLeg(object):
             return {"genes": genes, "order": order, "dialect": d, "keys": keys, "custom": custom,
                     "disable_genes": draw(st.booleans()), "disable_transcripts": draw(st.booleans()),
                     "file_db": draw(st.integers(0, 3)) == 0, "split_update": draw(st.integers(0, 3)) == 0,
-                    "late_exons": draw(st.integers(0, 2)) == 0, "foreign_then_reopen": draw(st.integers(0, 2)) == 0,
+                    "late_exons": draw(st.integers(0, 2)) == 0, "late_nested": draw(st.booleans()), "foreign_then_reopen": draw(st.integers(0, 2)) == 0,
                     "first_disabled": draw(st.integers(0, 2)) == 0,
                     "merge_strategy": draw(st.sampled_from([None, None, None, "replace", "merge", "create_unique", "warning"])),
                     "custom_prelude": draw(st.integers(0, 5)) == 0}
@@ -147,7 +147,7 @@ class GtfLeg(object):
         if case.get("split_update") and len(case["genes"]) >= 2 and not case["custom"]:
             labels.append("last-gene-through-update")
         elif case.get("late_exons") and not case["custom"]:
-            labels.append("exons-arrive-through-update")
+            labels.append("exons-arrive-through-update" + ("(nested-in-derived-gene drawn)" if case.get("late_nested") else ""))
         if case.get("foreign_then_reopen") and case["file_db"] and not case["custom"] and (case.get("split_update") or case.get("late_exons")):
             labels.append("constructed-feature-update-and-reopen-before")
         if case.get("first_disabled") and not case["custom"] and (case.get("split_update") or case.get("late_exons")):
@@ -164,6 +164,19 @@ class GtfLeg(object):
 
     @staticmethod
     def _late_target(case, model):
+        if case.get("late_nested"):
+            # a further transcript of a gene that is derived already by the first import, its exons inside the extent the
+            # gene has without them: the update must give this transcript its feature and leave the gene as it is
+            for g in model["genes"].values():
+                with_exons = [t for t in g["tx"] if model["tx"][t]["exons"]]
+                if len(with_exons) >= 2:
+                    for t in with_exons:
+                        mine = list(model["tx"][t]["exons"])
+                        rest = list(g["exons"])
+                        for e in mine:
+                            rest.remove(e)
+                        if rest and min(a for a, b in rest) <= min(a for a, b in mine) and max(b for a, b in mine) <= max(b for a, b in rest):
+                            return t
         for g in model["genes"].values():
             with_exons = [t for t in g["tx"] if model["tx"][t]["exons"]]
             if len(with_exons) == 1 and len(g["tx"]) >= 1:
